@@ -20,6 +20,7 @@ import (
 	stdlog "log"
 	"net"
 	"net/http"
+	"strings"
 
 	"github.com/tmpim/casket"
 	"github.com/tmpim/casket/caskethttp/httpserver"
@@ -84,7 +85,7 @@ func (l Logger) ServeHTTP(w http.ResponseWriter, r *http.Request) (int, error) {
 						rep.Set("remote", maskedIP)
 					}
 				}
-				e.Log.Println(rep.Replace(e.Format))
+				e.Log.Println(expandEntry(rep, e.Format))
 
 			}
 
@@ -92,6 +93,22 @@ func (l Logger) ServeHTTP(w http.ResponseWriter, r *http.Request) (int, error) {
 		}
 	}
 	return l.Next.ServeHTTP(w, r)
+}
+
+// entryEscaper keeps what a request put into a placeholder value on the line
+// of its log entry: a CR or LF (from a percent-decoded path, a query argument,
+// a user name ...) is written as \r or \n, as {request} and {request_body}
+// always were. Without it a request could forge further lines of the log.
+var entryEscaper = strings.NewReplacer("\r", "\\r", "\n", "\\n")
+
+// expandEntry expands the placeholders of a log format. Line breaks written
+// in the format itself are kept.
+func expandEntry(rep httpserver.Replacer, format string) string {
+	lines := strings.Split(format, "\n")
+	for i, line := range lines {
+		lines[i] = entryEscaper.Replace(rep.Replace(line))
+	}
+	return strings.Join(lines, "\n")
 }
 
 // serveNext calls the next handler. A panic that no handler further down has
